@@ -2,6 +2,7 @@ import MidnightZK.Model.Common
 import MidnightZK.Model.C05.Bounds
 import MidnightZK.Model.C05.Gate
 import MidnightZK.Model.C05.Chip
+import MidnightZK.Model.C05.Big
 import MidnightZK.Gen.C05Params
 /-! Line-protocol handler of property C05. -/
 namespace MidnightZK.C05.Driver
@@ -183,6 +184,150 @@ def runProg (c : ChipCfg) (ops : List (List String)) : String := Id.run do
     | none => if st.sat then "sat" else "unsat"
   return " | ".intercalate outs ++ " => " ++ verdict
 
+
+/-! ## BigUint programs -/
+
+inductive BVal where
+  | big (x : BVar)
+  | bit (b : Bool)
+  | bits (l : List Bool)
+  | bytes (l : List Nat)
+  | unit
+
+def fmtBVal : BVal → String
+  | .big x => s!"G<{fmtNatList x.limbs};{fmtNatList x.sb}>"
+  | .bit b => if b then "b1" else "b0"
+  | .bits l => "B<" ++ String.ofList (l.map (fun b => if b then '1' else '0')) ++ ">"
+  | .bytes l => "Y<" ++ fmtNatList l ++ ">"
+  | .unit => "U"
+
+def bigLb : Nat := Gen.bigLog2Base
+/-- `F::NUM_BITS` of the circuit field (BLS12-381 scalar field). -/
+def bigNumBits : Nat := bitsNat Gen.secpBase_over_blsScalar.p.natAbs
+
+def getBig (vals : Array BVal) (s : String) : Option BVar :=
+  match s.toNat? with
+  | some i => match vals[i]? with
+    | some (.big x) => some x
+    | _ => none
+  | none => none
+
+def liftB (r : Except BStop (BVar × Bool)) : Option (Except BStop (BVal × Bool)) :=
+  some (r.map (fun t => (BVal.big t.1, t.2)))
+
+def optPanic {α : Type} (o : Option α) : Except BStop α :=
+  match o with
+  | some a => .ok a
+  | none => .error .panic
+
+def stepBig (vals : Array BVal) (name : String) (a : List String) :
+    Option (Except BStop (BVal × Bool)) :=
+  let lb := bigLb
+  let nb := bigNumBits
+  match name, a with
+  | "in", [v, w] => do let v ← parseNat? v; let w ← w.toNat?; liftB (Big.assignBounded lb v w)
+  | "fix", [v] => do let v ← parseNat? v; some (.ok (.big (Big.assignFixed lb v), true))
+  | "inbit", [b] => some (.ok (.bit (b = "1"), true))
+  | "inbits", [b] => some (.ok (.bits ((b.toList.filter (fun ch => ch = '0' ∨ ch = '1')).map (· = '1')), true))
+  | "inbytes", [b] => do let l ← parseNatList? b; some (.ok (.bytes l, true))
+  | "add", [x, y] => do let x ← getBig vals x; let y ← getBig vals y; liftB (Big.add lb nb x y)
+  | "sub", [x, y] => do let x ← getBig vals x; let y ← getBig vals y; liftB (Big.sub lb nb x y)
+  | "mul", [x, y] => do let x ← getBig vals x; let y ← getBig vals y; liftB (Big.mul lb nb x y)
+  | "div", [x, y] => do
+    let x ← getBig vals x; let y ← getBig vals y
+    some ((Big.divRem lb nb x y).map (fun t => (.big t.1, t.2.2)))
+  | "rem", [x, y] => do
+    let x ← getBig vals x; let y ← getBig vals y
+    some ((Big.divRem lb nb x y).map (fun t => (.big t.2.1, t.2.2)))
+  | "modexp", [x, n, m] => do
+    let x ← getBig vals x; let n ← n.toNat?; let m ← getBig vals m
+    liftB (Big.modExp lb nb x n m)
+  | "lt", [x, y] => do
+    let x ← getBig vals x; let y ← getBig vals y
+    some ((optPanic (Big.geq lb x y)).map (fun g => (.bit (!g), true)))
+  | "eq", [x, y] => do
+    let x ← getBig vals x; let y ← getBig vals y
+    some ((optPanic (Big.limbsEqual lb x y)).map (fun e => (.bit e, true)))
+  | "neq", [x, y] => do
+    let x ← getBig vals x; let y ← getBig vals y
+    some ((optPanic (Big.limbsEqual lb x y)).map (fun e => (.bit (!e), true)))
+  | "eqc", [x, c] => do
+    let x ← getBig vals x; let c ← parseNat? c
+    if !(isNormalized lb x.sb) then some (.error .panic) else
+    let n := (natBits c + lb - 1) / lb
+    if x.limbs.length < n then some (.ok (.bit false, true)) else
+    some (.ok (.bit (x.limbs == (bigToLimbs lb x.limbs.length c).1), true))
+  | "asserteq", [x, y] => do
+    let x ← getBig vals x; let y ← getBig vals y
+    some ((optPanic (Big.limbsEqual lb x y)).map (fun e => (.unit, e)))
+  | "assertneq", [x, y] => do
+    let x ← getBig vals x; let y ← getBig vals y
+    some ((optPanic (Big.limbsEqual lb x y)).map (fun e => (.unit, !e)))
+  | "asserteqc", [x, c] => do
+    let x ← getBig vals x; let c ← parseNat? c
+    if !(isNormalized lb x.sb) then some (.error .panic) else
+    let n := (natBits c + lb - 1) / lb
+    if x.limbs.length < n then some (.error .panic) else
+    some (.ok (.unit, x.limbs == (bigToLimbs lb x.limbs.length c).1))
+  | "select", [b, x, y] => do
+    let i ← b.toNat?
+    let x ← getBig vals x; let y ← getBig vals y
+    match vals[i]? with
+    | some (.bit b) => some ((optPanic (Big.select b x y)).map (fun r => (.big r, true)))
+    | _ => none
+  | "tobits", [x] => do
+    let x ← getBig vals x
+    if !(isNormalized lb x.sb) then some (.error .panic) else
+    some (.ok (.bits (x.limbs.flatMap (Big.natBitsLE lb)), x.limbs.all (fun l => decide (l < 2 ^ lb))))
+  | "tobytes", [x] => do
+    let x ← getBig vals x
+    if !(isNormalized lb x.sb) then some (.error .panic) else
+    some (.ok (.bytes (x.limbs.flatMap (fun l => (Big.chunksOf (lb + 1) 8 (Big.natBitsLE lb l)).map Big.bitsToNat)),
+      x.limbs.all (fun l => decide (l < 2 ^ lb))))
+  | "frombits", [v] => do
+    let i ← v.toNat?
+    match vals[i]? with
+    | some (.bits bs) => some (.ok (.big (Big.fromBits lb bs), true))
+    | _ => none
+  | "frombytes", [v] => do
+    let i ← v.toNat?
+    match vals[i]? with
+    | some (.bytes bs) => some (.ok (.big (Big.fromBytes lb bs), true))
+    | _ => none
+  | "pi", [x, w] => do
+    let x ← getBig vals x; let w ← w.toNat?
+    if w ≠ nbBits lb x.sb then some (.error .err) else
+    some ((Big.normalize lb nb x).map (fun t => (.unit, t.2)))
+  | _, _ => none
+
+def runBig (ops : List (List String)) : String := Id.run do
+  let mut vals : Array BVal := #[]
+  let mut outs : Array String := #[]
+  let mut sat := true
+  let mut stop : Option String := none
+  for o in ops do
+    match o with
+    | name :: args =>
+      match stepBig vals name args with
+      | none => return "bad-op"
+      | some (.error .err) => stop := some "E"; break
+      | some (.error .panic) => stop := some "P"; break
+      | some (.ok (v, ok)) =>
+        vals := vals.push v
+        outs := outs.push (fmtBVal v)
+        sat := sat && ok
+    | [] => return "bad-op"
+  let outl := outs.toList ++ (match stop with | some s => [s] | none => [])
+  let verdict := match stop with
+    | some _ => "stopped"
+    | none => if sat then "sat" else "unsat"
+  return " | ".intercalate outl ++ " => " ++ verdict
+
+def answerBig (line : String) : String :=
+  match (line.trimAscii.toString.splitOn " ; ") with
+  | hd :: rest => if hd.trimAscii.toString = "big" then runBig (rest.map words) else "bad-op"
+  | [] => "bad-op"
+
 def answerProg (line : String) : String :=
   match (line.trimAscii.toString.splitOn " ; ") with
   | hd :: rest =>
@@ -209,6 +354,7 @@ def fmtRow (u : Int) (vjs : List Int) (ok : Bool) : String :=
 
 def answer (line : String) : String :=
   if line.startsWith "fp " then answerProg line else
+  if line.startsWith "big " then answerBig line else
   match words line with
   | ["auxb", p, m, moduli, emin, emax, mjb] =>
     match parseInt? p, parseInt? m, parseIntList? moduli, parseInt? emin, parseInt? emax, parsePairs? mjb with
